@@ -40,6 +40,8 @@ struct Acc {
     worst_exact: f64,
     sharp: Vec<f64>,
     worst_tone: f64,
+    worst_saw: f64,
+    worst_saw_rel: f64,
 }
 
 fn fail(acc: &mut Acc, cfg: &Cfg, sig: &str, detail: String, point: String) {
@@ -206,6 +208,100 @@ fn one<T: Flt>(acc: &mut Acc, item: &Item, chunk: usize, journal: Option<&Journa
     Ok(())
 }
 
+/// Large chunks: the position inside a chunk runs into the tens of thousands, where an f32
+/// could no longer hold its fractional part. The input is a sawtooth of local polynomials,
+/// x[n] = (((n mod 64) - 32) / 8)^k: interpolation is local, so wherever the interpolation
+/// window lies inside one tooth the output must be that polynomial at the instant; all values
+/// stay small, so single precision resolves the output to a few eps everywhere in the chunk.
+fn sawtooth<T: Flt>(acc: &mut Acc, item: &Item, chunk: usize, journal: Option<&JournalFile>) -> Result<(), String> {
+    let cfg = Cfg::fast(item.kind, item.ratio, 1.0, chunk, item.degree);
+    let span = chunk as f64 * if item.kind == Kind::FO { 1.0 / item.ratio } else { 1.0 };
+    let n_in = (2.2 * span) as usize + 400;
+    let tau = instants(&cfg, n_in)?;
+    let deg = item.degree.degree();
+    let eps_t = if T::IS_F32 { f32::EPSILON as f64 } else { f64::EPSILON };
+    let (lo, hi) = match item.degree {
+        Degree::Septic => (-3i64, 4i64),
+        Degree::Quintic => (-2, 3),
+        Degree::Cubic => (-1, 2),
+        Degree::Linear => (0, 1),
+        Degree::Nearest => (-1, 1),
+    };
+    let ks: Vec<usize> = if item.degree == Degree::Nearest { vec![1] } else { (1..=deg).collect() };
+    for k in ks {
+        if let Some(j) = journal {
+            j.write(&cfg.to_json(), &format!("sawtooth k={} T={} chunk={}", k, T::NAME, chunk));
+        }
+        let tooth = |n: f64| (((n % 64.0) - 32.0) / 8.0).powi(k as i32);
+        let x: Vec<f64> = (0..n_in).map(|n| tooth(n as f64)).collect();
+        let s = resample_all::<T>(&cfg, &x)?;
+        acc.evals += 1;
+        let n = s.out.len().min(tau.len());
+        let (mut worst, mut worst_at, mut count) = (0.0f64, 0usize, 0u64);
+        for j in 0..n {
+            let t = tau[j];
+            if t < 4.0 {
+                continue;
+            }
+            if t + 5.0 >= s.consumed as f64 {
+                break;
+            }
+            let fl = t.floor() as i64;
+            if (fl + lo).div_euclid(64) != (fl + hi).div_euclid(64) {
+                continue; // window straddles two teeth
+            }
+            let e = if item.degree == Degree::Nearest {
+                let frac = t - fl as f64;
+                let mut cands = vec![fl];
+                if frac < 1e-9 {
+                    cands.push(fl - 1);
+                }
+                if 1.0 - frac < 1e-9 {
+                    cands.push(fl + 1);
+                }
+                cands.iter().map(|c| (s.out[j] - T::from64(x[*c as usize]).to64()).abs()).fold(f64::INFINITY, f64::min)
+            } else {
+                let base = (fl.div_euclid(64) * 64) as f64;
+                let expect = ((t - base - 32.0) / 8.0).powi(k as i32);
+                // local scale: the largest sample in the window
+                let scale = (lo..=hi).map(|o| x[(fl + o) as usize].abs()).fold(1e-30, f64::max);
+                (s.out[j] - expect).abs() / scale
+            };
+            count += 1;
+            if e > worst {
+                worst = e;
+                worst_at = j;
+            }
+        }
+        if count > 16 {
+            acc.nontrivial += 1;
+        }
+        let point = format!("T={} chunk={} sawtooth (((n mod 64)-32)/8)^{}", T::NAME, chunk, k);
+        if item.degree == Degree::Nearest {
+            acc.outcomes.insert(format!("{}:nearest-large-chunk:{}", T::NAME, if worst == 0.0 { "exact" } else { "off" }));
+            if worst != 0.0 {
+                fail(acc, &cfg, "nearest-not-a-sample", format!("output frame {} (instant {:?}) is not the input sample at or just before the instant (off by {:e})", worst_at, tau[worst_at], worst), point);
+            }
+            continue;
+        }
+        // rounding only, relative to the largest sample in the window: 6 eps in f32 (worst value
+        // measured on the unchanged tree: 1.3 eps); in f64 the instants themselves, read off an
+        // index signal with offset 2^20, are only known to 2^-32
+        let tol = if T::IS_F32 { SAW_EPS_F32 * eps_t } else { 2e-9 };
+        let cond = tol / eps_t;
+        acc.worst_saw = acc.worst_saw.max(worst / eps_t);
+        acc.worst_saw_rel = acc.worst_saw_rel.max(worst / tol);
+        acc.outcomes.insert(format!("{}:{}:large-chunk:{}", T::NAME, item.degree.name(), if worst <= tol { "exact" } else { "INEXACT" }));
+        if !(worst <= tol) {
+            fail(acc, &cfg, "polynomial-not-reproduced", format!("local degree-{} polynomial is reproduced with error {:e} of the largest sample in the window ({:.1} eps) at output frame {} (instant {:?}); tolerance {:.1} eps", k, worst, worst / eps_t, worst_at, tau.get(worst_at), cond), point);
+        }
+    }
+    Ok(())
+}
+
+/// f32 tolerance of the sawtooth test in units of f32 epsilon
+const SAW_EPS_F32: f64 = 6.0;
+
 impl Check for C08 {
     fn id(&self) -> &'static str {
         "C08"
@@ -221,11 +317,16 @@ impl Check for C08 {
     }
     fn run_item(&self, tier: Tier, idx: usize, journal: Option<&JournalFile>) -> Result<Value, String> {
         let item = items(tier).into_iter().nth(idx).ok_or("no item")?;
-        let mut acc = Acc { evals: 0, nontrivial: 0, found: vec![], outcomes: Default::default(), worst_exact: 0.0, sharp: vec![], worst_tone: 0.0 };
+        let mut acc = Acc { evals: 0, nontrivial: 0, found: vec![], outcomes: Default::default(), worst_exact: 0.0, sharp: vec![], worst_tone: 0.0, worst_saw: 0.0, worst_saw_rel: 0.0 };
         let chunks: Vec<usize> = if tier == Tier::Quick { vec![1, 5, 32, 257] } else { CHUNKS.to_vec() };
         for chunk in chunks {
             one::<f64>(&mut acc, &item, chunk, journal)?;
             one::<f32>(&mut acc, &item, chunk, journal)?;
+        }
+        let big: Vec<usize> = vec![4096, 32768, 100000];
+        for chunk in big {
+            sawtooth::<f64>(&mut acc, &item, chunk, journal)?;
+            sawtooth::<f32>(&mut acc, &item, chunk, journal)?;
         }
         let label = format!("{} {} r={:?}", item.kind.name(), item.degree.name(), item.ratio);
         let sharp_min = acc.sharp.iter().cloned().fold(f64::INFINITY, f64::min);
@@ -233,7 +334,7 @@ impl Check for C08 {
             "label": label, "evaluations": acc.evals, "nontrivial": acc.nontrivial,
             "outcomes": acc.outcomes.iter().collect::<Vec<_>>(), "found": acc.found,
             "samples": [{"item": label, "inputs": "(n/64)^k for k = 0..degree+1, four tones", "instants": "read off the index signal through the Linear twin of the same configuration"}],
-            "extra": {"worst_exact": acc.worst_exact, "sharp_min": if sharp_min.is_finite() { sharp_min } else { -1.0 }, "worst_tone": acc.worst_tone},
+            "extra": {"worst_exact": acc.worst_exact, "sharp_min": if sharp_min.is_finite() { sharp_min } else { -1.0 }, "worst_tone": acc.worst_tone, "worst_saw_eps": acc.worst_saw, "worst_saw": acc.worst_saw_rel},
         }))
     }
     fn finalize(&self, _tier: Tier, items: &[Value], cov: &mut Map<String, Value>) {
@@ -247,12 +348,13 @@ impl Check for C08 {
         crate::frame::replay_by_item(self, replay)
     }
     fn rule(&self, _tier: Tier) -> String {
-        "full product of degree(5) x ratio x {FastFixedIn, FastFixedOut} x chunk x {f32,f64} x monomial (n/64)^k for k = 0..degree (must be exact to rounding) and k = degree+1 (must equal the polynomial through exactly the documented nodes, error term prod(t-node)/64^k included), every output frame of six chunks whose window lies in supplied data; Nearest: the input sample at or just before the instant, bit-exact; four tones against the classical bound C_d*(pi f)^(d+1). Non-trivial = more than 16 frames compared".into()
+        "full product of degree(5) x ratio x {FastFixedIn, FastFixedOut} x chunk x {f32,f64} x monomial (n/64)^k for k = 0..degree (must be exact to rounding) and k = degree+1 (must equal the polynomial through exactly the documented nodes, error term prod(t-node)/64^k included), every output frame of six chunks whose window lies in supplied data; Nearest: the input sample at or just before the instant, bit-exact; four tones against the classical bound C_d*(pi f)^(d+1); large chunks (4096, 32768 and 100000 frames): sawtooth of local polynomials (((n mod 64)-32)/8)^k, k = 1..degree, every output frame whose window lies inside one tooth, to 6 eps (f32) of the largest sample in the window. Non-trivial = more than 16 frames compared".into()
     }
     fn assumptions(&self) -> Vec<String> {
         vec![
             "instants are taken from the Linear twin of the same configuration (position bookkeeping is degree independent; C06 checks the instants themselves)".into(),
             "f32 tolerance = conditioning of the Lagrange formula (2e3/1.3e2/10/3; about 4x the worst value measured on the unchanged tree) x f32 epsilon, relative to max(1,|value|)".into(),
+            "sawtooth test: interpolation is local (8/6/4/2 samples), so a piecewise polynomial is reproduced wherever the window lies inside one piece".into(),
         ]
     }
     fn vacuity(&self, _tier: Tier) -> (u64, u64) {
